@@ -139,8 +139,6 @@ def scanner(rep, f, c, labels):
     ALPH = ISet.of(*sorted(alph))
     maxlen = max(len(l) for l in labels)
     # locals
-    trimmed = [i for i, l in enumerate(b.locals) if l.get('name') == 'trimmed']
-    pos = [i for i, l in enumerate(b.locals) if l.get('name') == 'trimmed_pos']
     arr = [i for i, l in enumerate(b.locals) if re.match(r'\[u8; \d+\]$', l['ty'])]
     if len(arr) != 1:
         rep.undecidable('C13-O4', fn, 'expected exactly one [u8; N] scratch array', site, c)
@@ -171,6 +169,8 @@ def scanner(rep, f, c, labels):
                     rep.undecidable('C13-O4', fn, 'store into scratch array with unrecognised index form', sp_str(st['sp']), c)
                     return
                 stores[bi] = (pe['index'], st)
+    # the write position: the local every scratch store is indexed by
+    pos = sorted({Resolver(b).local(idx)[1] for idx, st in stores.values() if Resolver(b).local(idx)[0] == 'loc'})
     # the search block: where binary_search_by is called
     search = [bi for bi, t in b.calls() if 'binary_search_by' in (b.callee(t) or '')]
     if len(search) != 1:
@@ -203,7 +203,7 @@ def scanner(rep, f, c, labels):
         for bi in ret_none:
             rsx = Resolver(b)
             is_cut = any(k_ == 'bool' and v_ is True and e_[0] == 'bin' and e_[1] == 'Eq' and e_[3][0] == 'c'
-                         and e_[2][0] == 'loc' and b.locals[e_[2][1]].get('name') == 'trimmed_pos'
+                         and e_[2][0] == 'loc' and e_[2][1] in pos
                          for k_, e_, v_, S_ in block_conditions(b, bi, rsx))
             if is_cut:
                 cut_rej = cut_rej | ra.reach_of(bi)
